@@ -6,6 +6,7 @@ CONSTANTS
   Vcpus = {1}
   Roms = {1}
   Bases = {"high"}
+  Metas = {0}
 SPECIFICATION Spec
 INVARIANTS C04_OrderRomSectionsVmsas C04_AcceptedHaveMandatory Emit
 CHECK_DEADLOCK FALSE
